@@ -131,6 +131,21 @@ func (r *oaRenderer) ty(s *Src) JV {
 			vals.A = append(vals.A, jInt(v))
 		}
 		return jObj(kv("type", jStr("integer")), kv("enum", vals))
+	case SNullable:
+		t := r.ty(s.Elem)
+		switch s.Elem.Kind {
+		case SRef:
+			r.out.unsupported("nullable.ref") // `nullable` beside `$ref` is ignored
+		case SString, SInt, SNum:
+		case SConst:
+			if s.Elem.Const.K != 's' || !regexSafeConst(s.Elem.Const.S) {
+				r.out.note("elem.nullable." + s.Elem.Kind.String() + ":dropped-by-front-end")
+			}
+		default:
+			r.out.note("elem.nullable." + s.Elem.Kind.String() + ":dropped-by-front-end")
+		}
+		t.set("nullable", jBool(true))
+		return t
 	case SArray:
 		return jObj(kv("type", jStr("array")), kv("items", r.ty(s.Elem)))
 	case SDict:
